@@ -83,6 +83,28 @@ def _validate(ctx, tr, label, max_rounds=8):
 CH_ACTIONS = ["SendMsg", "PushChunk", "PullChunk", "Decode"]
 
 
+def _classify_iface(run):
+    """error > corrupt > lost > reordered, per channel (protocol) of one interface run."""
+    if any(e["ev"] in ("send_err", "recv_err") for e in run):
+        return "error", [e for e in run if e["ev"] in ("send_err", "recv_err")][0].get("err", "")[:80]
+    sent, recv = {}, {}
+    for e in run:
+        if e["ev"] == "send":
+            sent.setdefault(e["ch"]["proto"], []).append((e["id"], e["len"]))
+        elif e["ev"] == "recv":
+            recv.setdefault(e["ch"]["proto"], []).append((e["id"], e["len"]))
+    worst, detail = "reordered", ""
+    for p in sorted(set(sent) | set(recv)):
+        s, r = sent.get(p, []), recv.get(p, [])
+        if any(x not in s for x in r) or len(r) > len(s):
+            return "corrupt", "protocol %d: received something that was not sent" % p
+        if len(r) < len(s):
+            worst, detail = "lost", "protocol %d: %d of %d messages arrived" % (p, len(r), len(s))
+        elif r != s and worst != "lost":
+            detail = "protocol %d: arrival order %s" % (p, [s.index(x) + 1 for x in r])
+    return worst, detail
+
+
 def _channel(ctx, binary):
     """Extra section: the end-to-end channel on the REAL chunking path (spec/net/Channel.tla).
     send_msg_chunks -> Plexer pair -> recv_full_msg (old stack), write_message -> read_full_msgs (new stack),
@@ -94,19 +116,22 @@ def _channel(ctx, binary):
     else:
         ctx.tlc_mc("net", "MCChannel", "MCChannelQuick.cfg", workers=2, required_actions=CH_ACTIONS)
     runs, runs2, msgs = (6, 3, 16) if ctx.thorough else (1, 1, 8)
+    runs3, imsgs = (12, 40) if ctx.thorough else (3, 20)
     tr = ctx.path("channel.ndjson")
-    ctx.run_bin(binary, ["channel-trace", "--seed", ctx.seed, "--runs", runs, "--runs2", runs2, "--msgs", msgs, "--out", tr])
+    ctx.run_bin(binary, ["channel-trace", "--seed", ctx.seed, "--runs", runs, "--runs2", runs2, "--msgs", msgs,
+                         "--runs3", runs3, "--imsgs", imsgs, "--out", tr])
     events = vlib.read_ndjson(tr)
     sends = [e for e in events if e["ev"] == "send"]
-    info = {"runs": runs + runs2, "messages_sent": len(sends), "messages_received": sum(1 for e in events if e["ev"] == "recv"),
+    info = {"runs": runs + runs2 + runs3, "interface_runs": runs3, "messages_sent": len(sends), "messages_received": sum(1 for e in events if e["ev"] == "recv"),
             "multi_segment_messages": sum(1 for e in sends if e["nseg"] > 1),
             "within_2_bytes_of_a_segment_boundary": sum(1 for e in sends if e["len"] > 60000 and e["len"] % 65535 in (0, 1, 2, 65533, 65534)),
             "max_segments": max([e["nseg"] for e in sends] or [0]),
             "message_types": sorted(set("%s:%s" % (e.get("mp", "network2"), e["kind"]) for e in sends))}
     ctx.sample({"channel_events": [e for e in events if e["ev"] in ("send", "recv") and e["len"] > 65535][:2]})
     rejected = 0
+    real = 0          # rejections that are not recorded known findings
     path = tr
-    for rnd in range(4):
+    for rnd in range(runs3 + 4):
         ok, matched, total, first = ctx.tlc_trace("net", "TraceChannel", "TraceChannel.cfg", path)
         ctx.cov["evaluations"] += matched
         if ok or not events:
@@ -126,7 +151,20 @@ def _channel(ctx, binary):
                 kind = "%s/%s/nseg%d" % (ps[k].get("mp", "network2"), ps[k]["kind"], ps[k]["nseg"])
         sub = ctx.path("channel_rejected_run%s.ndjson" % events[start].get("run"))
         vlib.write_ndjson(sub, events[start:end])
-        ctx.report("channel/%s/%s/%s" % (stack, kind, first.get("ev")),
+        if str(stack).startswith("iface-"):
+            # naming only: what kind of disagreement the rejected run shows (TLC has already rejected it)
+            cls, detail = _classify_iface(events[start:end])
+            real += ctx.report("channel/iface/%s/%s" % (stack.split("-")[-1], cls),
+                       "new stack through %s: messages queued with dispatch(Send) %s: %s; first rejected event: %s" % (
+                           stack, {"reordered": "arrive complete but in another order on their channel",
+                                   "lost": "do not all arrive", "corrupt": "arrive as messages that were never sent",
+                                   "error": "end in an I/O error"}[cls], detail, json.dumps(first)[:200]),
+                       payload={"event": first, "open": events[start], "class": cls, "detail": detail}, src_file=sub)
+            events = events[:start] + events[end:]
+            path = ctx.path("channel_rest%d.ndjson" % rnd)
+            vlib.write_ndjson(path, events)
+            continue
+        real += ctx.report("channel/%s/%s/%s" % (stack, kind, first.get("ev")),
                    "end-to-end channel (%s): event %d of run %s is not the next message of the paired sender / not everything "
                    "arrived: %s" % (stack, matched - start + 1, events[start].get("run"), json.dumps(first)[:300]),
                    payload={"event": first, "open": events[start]}, src_file=sub)
@@ -134,7 +172,7 @@ def _channel(ctx, binary):
         path = ctx.path("channel_rest%d.ndjson" % rnd)
         vlib.write_ndjson(path, events)
     ctx.cov["traces_validated_against_impl"] += runs + runs2
-    if not rejected:
+    if not real:
         recvs = [i for i, e in enumerate(events) if e["ev"] == "recv" and e["len"] > 65535]
         if not recvs:
             raise vlib.ToolError("channel trace has no multi-segment message")
